@@ -193,7 +193,11 @@ func ruleR07g(c *Ctx) {
 	}
 	info := p.TypesInfo
 	n := 0
-	ast.Inspect(fd.Body, func(x ast.Node) bool {
+	scope := &ast.BlockStmt{}
+	for _, hd := range c.withHelpers("parsepasses", fd, 2) {
+		scope.List = append(scope.List, hd.Body)
+	}
+	ast.Inspect(scope, func(x ast.Node) bool {
 		ifs, ok := x.(*ast.IfStmt)
 		if !ok {
 			return true
